@@ -109,6 +109,27 @@ def isUdpName : Gen.MagicRule → List Char → Bool
   | .contains, name => hasInfix reservedName name
   | .reservedSuffix, name => name == reservedName || ('.' :: reservedName).isSuffixOf name
 
+/-! ### the client side of an association: where replies go (`last_peer`) -/
+
+/-- what the client's two loops see, in order: a datagram from a local application (by source address), or a reply
+    decoded from the tunnel stream -/
+inductive CEv where
+  | fromApp (addr : Nat) (d : Bytes)
+  | reply (d : Bytes)
+  deriving DecidableEq, Repr
+
+/-- the datagrams sent on the local socket, each with its destination; `last` = `last_peer` -/
+def clientReplies : (last : Option Nat) → List CEv → List (Nat × Bytes)
+  | _, [] => []
+  | _, .fromApp a _ :: es => clientReplies (some a) es
+  | none, .reply _ :: es => clientReplies none es            -- no peer known yet: dropped
+  | some a, .reply d :: es => (a, d) :: clientReplies (some a) es
+
+def repliesOf : List CEv → List Bytes
+  | [] => []
+  | .fromApp _ _ :: es => repliesOf es
+  | .reply d :: es => d :: repliesOf es
+
 /-- does a call on the relay's socket fail because an *earlier* datagram met a closed port?  (The OS rule, assumed: a
     connected UDP socket reports the pending ICMP error on its next call, an unconnected one never does.) -/
 def staleError (connected icmpPending : Bool) : Bool := connected && icmpPending
